@@ -581,13 +581,12 @@ func (p *PsUnpacker) onAvPacketWrap(packet *base.AvPacket) {
 	p.onAvPacketWrapCount++
 	//nazalog.Debugf("PsUnpacker > onAvPacketWrap. packet=%s", packet.DebugString())
 	if packet.IsVideo() {
-		// Payload是AnnexB格式，start code可能是3或者4字节，nal头在start code之后
-		_, leading := h2645.IterateNaluStartCode(packet.Payload, 0)
-		if leading < 0 || len(packet.Payload) <= leading {
-			// 只有start code，没有nal数据
+		// Payload以start code开头，start code可能是3字节也可能是4字节(或更多前导0)，nal header是start code之后的第一个字节
+		pos, length := h2645.IterateNaluStartCode(packet.Payload, 0)
+		if pos < 0 || pos+length >= len(packet.Payload) {
 			return
 		}
-		typ := h2645.ParseNaluType(packet.PayloadType == base.AvPacketPtAvc, packet.Payload[leading])
+		typ := h2645.ParseNaluType(packet.PayloadType == base.AvPacketPtAvc, packet.Payload[pos+length])
 		//nazalog.Debugf("PsUnpacker onAvPacketWrap. type=%d", typ)
 		// TODO(chef): [opt] 等待sps等信息再开始回调，这个逻辑不完整简化了 202209
 		if p.waitSpsFlag {
